@@ -167,5 +167,33 @@ CHECKS["C07"].update(category="proof",
          "the byte-for-byte correspondence of the writer model with the real writer plus the real write -> real read oracle.",
     technique="Lean 4 proof (value-level codecs, magnitude rules, _infer_dtype characterisation) + byte-equality correspondence + read-back oracle")
 
+CHECKS["C04"].update(category="proof",
+    text="window_eq_slice: for every layout of a channel (any number of segments, chunk counts incl. 0, truncated final chunks incl. ones holding 0 values, segments where the "
+         "channel is absent anywhere), every offset >= 0 incl. beyond the end and every length or None, the arithmetic of read_raw_data_for_channel — the model's own "
+         "buildIndex/searchsorted/segPlan/trimStream — selects exactly full[offset:offset+length]; windowLoop_eq_windowPure links it to the model's I/O loop; "
+         "read_slice_eq_pySlice: the slice normalisation of _read_slice equals CPython's slice semantics for all start/stop/step (ValueError iff step 0), read_at_index_eq for "
+         "integer indices; read_slice_end_to_end composes them. The CPython slice spec itself is cross-checked exhaustively against the interpreter for small sizes. Assumed, "
+         "not derived: per-segment well-formedness produced by the metadata reader and that each chunk read returns that chunk's values (data layer: C01 layers + correspondence).",
+    technique="Lean 4 proof (induction over segments, searchsorted/cumsum lemmas, div/mod arithmetic) + exhaustive per-file correspondence + NumPy-slice oracle")
+CHECKS["C06"].update(category="proof",
+    text="Arithmetic core for arbitrary object lists and sizes: chunk count and override in the exact and truncated cases; interleaved truncation = complete rows (r/W); contiguous "
+         "truncation = prefix-maximal fit (nothing invented, nothing complete lost, later objects empty); per-segment monotonicity of the value count under truncation (also DAQmx, "
+         "with the needed side conditions exhibited by counterexamples); incomplete flag iff the declared end lies beyond the data file, segment dropped iff the metadata is "
+         "incomplete, length-unknown marker; the metadata loop makes progress so its fuel suffices. The whole-file statement (values are a prefix for every cut offset) is not "
+         "proved as one theorem: it is checked by reading every prefix of generated files through the model and the real reader with the prefix oracle.",
+    technique="Lean 4 proof (div/mod arithmetic, induction over object lists) + exhaustive cut enumeration per file + prefix oracle")
+CHECKS["C09"].update(category="proof",
+    text="index_positions: walking an index file, the file position advances by 28 + raw data offset while the segment position advances exactly as in the data file, so after k "
+         "segments both walks describe the same segment positions (induction over the loop); index-only with the length-unknown marker cannot be resolved (error). Equality of the "
+         "parsed content follows from the parser round trips of C01 for the identical metadata bytes; it is not assembled into one theorem and is covered by the correspondence of "
+         "the model's index walk with the real reader and by the with/without-index oracle.",
+    technique="Lean 4 proof (loop invariant on positions) + differential correspondence + with/without-index oracle")
+CHECKS["C11"].update(category="proof",
+    text="daq_value_position / daq_scaler_value_eq_spec: value j of a scaler is decoded from the bytes at chunk start + sum of preceding buffers + j * width + offset, interpreted "
+         "in the segment's byte order (digital lines: the addressed bit, digital_line_bit); splitEvery yields only complete rows; buffer dimensions = max over users, chunk size = "
+         "sum len*width; truncated final chunk: whole buffers, then complete rows, then nothing, object length = min over its scalers' buffers. The parser round trip for DAQmx "
+         "indexes is in C01 (readDaqmxIndex_encIdx). Lazy windows / chunk streams = slices of eager are checked by correspondence and oracle on generated DAQmx files.",
+    technique="Lean 4 proof (row/column arithmetic by induction) + differential correspondence + byte-arithmetic oracle")
+
 NOTES = ("Properties move from not_applicable to checks as their model, correspondence and theorems are built; a check is claimed at `proof` only when its "
          "headline theorems are registered in lean/obligations.json. See DESIGN.md.")
